@@ -2,7 +2,7 @@
    implementation's observation (None | channel set, duration, samples of to_waveform(program).get_sampled | error).
    check_corr: the operational model (create_program + to_waveform + get_sampled, and `play`) reproduces it.
    check_spec: the denotation (Spec.denote / at_) accepts it. *)
-From Coq Require Import ZArith QArith Qround List Bool.
+From Coq Require Import ZArith QArith Qabs Qround List Bool.
 Require Import QV.common.Util QV.C01.Model QV.C01.Spec.
 Import ListNotations.
 Open Scope Q_scope.
@@ -18,11 +18,23 @@ Inductive case :=
 | CCaseM (p : pt) (env : list (N * Q)) (cm : list (chan * option chan)) (o : obs)
     (* model side only: inputs of a KNOWN finding are emitted twice, once as CCase (specification oracle; the check skips
        the model comparison of a classified failure) and once as CCaseM (model comparison, oracle not consulted) *)
+| CDec (p : pt) (env : list (N * Q)) (cm : list (chan * option chan)) (o : obs)
+    (* decimal stream (round 4): durations k/10, k/3, k/12 ... are not binary fractions.  [env] holds the EXACT rationals
+       (the code got them as float / decimal string / TimeType), the sample times are the exact rationals whose correctly
+       rounded doubles the code was asked for, the observed samples are binary64 results.  Channel set and duration are
+       compared exactly, which piece answers a junction is therefore decided exactly (the generated pieces start and end
+       at voltages >= 1/2 apart); sample VALUES are compared under the declared absolute tolerance [tol] = 2^-30 *)
 | CCrash.
+
+Definition tol : Q := 1 # 1073741824.
+Definition approxb (a b : Q) : bool := Qle_bool (Qabs (a - b)) tol.
+Definition oq_approxb (a b : option Q) : bool :=
+  match a, b with Some x, Some y => approxb x y | None, None => true | _, _ => false end.
 
 Definition oq_eqb (a b : option Q) : bool := opt_eqb Qeq_bool a b.
 
-Definition corr_body (p : pt) (env : list (N * Q)) (cm : list (chan * option chan)) (o : obs) : bool :=
+Definition corr_body (cmp : option Q -> option Q -> bool)
+           (p : pt) (env : list (N * Q)) (cm : list (chan * option chan)) (o : obs) : bool :=
       match create_program_b p env cm None, o with     (* the builder form with its frame stack; = create_program (cpb_cp) *)
       | Err e, OErr e' => err_eqb e e'
       | Ok None, ONone => true
@@ -33,8 +45,8 @@ Definition corr_body (p : pt) (env : list (N * Q)) (cm : list (chan * option cha
               cset_eqb (wchans w) chans && Qeq_bool (wdur w) dur && Qeq_bool (loop_dur prog) dur &&
               forallb (fun cs =>
                          forallb (fun tv =>
-                                    oq_eqb (get_sampled w (fst cs) (fst tv)) (snd tv) &&
-                                    (if Qltb' (fst tv) dur then oq_eqb (play prog (fst cs) (fst tv)) (snd tv) else true))
+                                    cmp (get_sampled w (fst cs) (fst tv)) (snd tv) &&
+                                    (if Qltb' (fst tv) dur then cmp (play prog (fst cs) (fst tv)) (snd tv) else true))
                                  (snd cs)) samples
           end
       | Ok (Some prog), OUnplayable => match to_waveform prog with Err _ => true | Ok _ => false end
@@ -44,14 +56,12 @@ Definition corr_body (p : pt) (env : list (N * Q)) (cm : list (chan * option cha
 Definition check_corr (c : case) : bool :=
   match c with
   | CCrash => false
-  | CCase p env cm o | CCaseM p env cm o => corr_body p env cm o
+  | CCase p env cm o | CCaseM p env cm o => corr_body oq_eqb p env cm o
+  | CDec p env cm o => corr_body oq_approxb p env cm o
   end.
 
-Definition check_spec (c : case) : bool :=
-  match c with
-  | CCrash => false
-  | CCaseM _ _ _ _ => true
-  | CCase p env cm o =>
+Definition spec_body (cmp : option Q -> option Q -> bool)
+           (p : pt) (env : list (N * Q)) (cm : list (chan * option chan)) (o : obs) : bool :=
       match denote_top p env cm, o with
       | Err _, OErr _ => true
       | Ok _, OErr EMissing => negb (accepts p env)   (* a declared parameter is not provided: rejecting is allowed *)
@@ -66,11 +76,18 @@ Definition check_spec (c : case) : bool :=
                      forallb (fun tv =>
                                 if Qle_bool 0 (fst tv) && Qltb' (fst tv) dur
                                 then match snd tv with
-                                     | Some _ => oq_eqb (at_ pcs (fst cs) (fst tv)) (snd tv)
+                                     | Some _ => cmp (at_ pcs (fst cs) (fst tv)) (snd tv)
                                      | None => false     (* no sample is NaN *)
                                      end
                                 else true)
                              (snd cs)) samples
       | _, _ => false
-      end
+      end.
+
+Definition check_spec (c : case) : bool :=
+  match c with
+  | CCrash => false
+  | CCaseM _ _ _ _ => true
+  | CCase p env cm o => spec_body oq_eqb p env cm o
+  | CDec p env cm o => spec_body oq_approxb p env cm o
   end.
